@@ -374,6 +374,57 @@ func scanResumeSweep(seed uint64, which int) []*world.Case {
 	return out
 }
 
+// combiningReaderSweep: programs in which a task that COMBINES (the map side of a
+// Reduce) reads its input over the network — from the Result of an earlier
+// invocation (which 0) or from another shuffle (which 1) — swept with the loss
+// of the serving machine in the middle of every streamed body: the failed attempt
+// has already combined part of its input when the read breaks.
+func combiningReaderSweep(seed uint64, which int) []*world.Case {
+	s := seedFor(seed, "C02-combining-reader", which)
+	r := gen.New(s)
+	cfg := clusterConfig(r)
+	cfg.Procs, cfg.Parallelism, cfg.Chunk = 2, 4, 8
+	src := spec.Node{Op: "const", KT: "int", N: 300, Card: 40, Shards: 3, DSeed: 4 + 12*r.Intn(20)}
+	var script []world.Step
+	if which == 0 {
+		base := &spec.Spec{Tag: "a", Nodes: []spec.Node{src, {Op: "map", Fn: "inc", M: 1, In: []int{0}}}}
+		ts, err := base.Types()
+		if err != nil {
+			panic(err)
+		}
+		t := ts[base.Root()]
+		cons := &spec.Spec{Tag: "b", Nodes: []spec.Node{{Op: "arg", T: &t}, {Op: "reduce", Fn: "sum", In: []int{0}}}}
+		script = []world.Step{
+			{Op: "run", ID: "r1", Func: "prog0", Spec: base, MustSucceed: true},
+			{Op: "run", ID: "r2", Func: "prog1", Spec: cons, Args: []string{"r1"}, MustSucceed: true},
+			{Op: "scan", Of: "r2", MustSucceed: true}}
+	} else {
+		sp := &spec.Spec{Tag: "a", Nodes: []spec.Node{src,
+			{Op: "reshuffle", In: []int{0}},
+			{Op: "map", Fn: "rekey", KT: "int", M: 16, In: []int{1}},
+			{Op: "reduce", Fn: "sum", In: []int{2}}}}
+		if _, err := sp.Types(); err != nil {
+			panic(err)
+		}
+		script = []world.Step{
+			{Op: "run", ID: "r1", Func: "prog0", Spec: sp, MustSucceed: true},
+			{Op: "scan", Of: "r1", MustSucceed: true}}
+	}
+	base := &world.Case{Format: 1, Property: "C02", Seed: s, Config: cfg, Script: script,
+		Oracle: world.Oracle{Rows: true, Liveness: true}}
+	evs, ro := recon(base)
+	if ro.Verdict != "ok" {
+		return []*world.Case{base}
+	}
+	var out []*world.Case
+	for _, f := range midStreamLosses(evs, 5) {
+		c := cloneCase(base)
+		c.Faults = []*simnet.Fault{f}
+		out = append(out, c)
+	}
+	return out
+}
+
 // C02 — machine loss gives correct rows or an error, never wrong rows or a hang.
 func C02(tier string, seed uint64) int {
 	nsweep := 2
@@ -406,13 +457,14 @@ func C02(tier string, seed uint64) int {
 	if os.Getenv("VERIF_C02_SWEEP_KINDS") == "" {
 		for k := 0; k < 2; k++ {
 			sweep = append(sweep, scanResumeSweep(seed, k)...)
+			sweep = append(sweep, combiningReaderSweep(seed, k)...)
 		}
-		nsweep += 2
+		nsweep += 4
 	}
 	fmt.Printf("verif: C02 single-fault sweep: %d cases over %d base programs\n", len(sweep), nsweep)
 	b := &Batch{
 		Property: "C02", Tier: tier, Seed: seed, Level: "fault_enumeration",
-		Rule: "fault-suite programs (map-only, reduce, cogroup, fold, multi-stage, reused results) on the simulated cluster; (a) sweep: for each base program, one run per (RPC seam event of the fault-free run x {kill callee, kill each other machine, drop Worker.Run reply}) and per (streamed Worker.Read body x {serving machine dies after 1/4, 1/2, 3/4 of the body and at gob message boundaries}); two fixed scan-resume programs (Fold output, map-only output) swept at every message boundary of every streamed body; (b) seeded plans of 1-4 faults (kill callee/bystander, drop, stall, cut-stream) placed on seam events of a reconnaissance run, with or without replacement machines; oracle: success with rows == reference, or error; no hang within 4h simulated; success required when at most 2 kills and capacity remains; distinct = distinct (ordered seam-event sequence, per-step result digest)",
+		Rule: "fault-suite programs (map-only, reduce, cogroup, fold, multi-stage, reused results) on the simulated cluster; (a) sweep: for each base program, one run per (RPC seam event of the fault-free run x {kill callee, kill each other machine, drop Worker.Run reply}) and per (streamed Worker.Read body x {serving machine dies after 1/4, 1/2, 3/4 of the body and at gob message boundaries}); two fixed scan-resume programs (Fold output, map-only output) swept at every message boundary of every streamed body; two programs whose combining tasks read over the network (reused Result -> Reduce; reshuffle -> rekey -> Reduce) swept with mid-stream losses; (b) seeded plans of 1-4 faults (kill callee/bystander, drop, stall, cut-stream) placed on seam events of a reconnaissance run, with or without replacement machines; oracle: success with rows == reference, or error; no hang within 4h simulated; success required when at most 2 kills and capacity remains; distinct = distinct (ordered seam-event sequence, per-step result digest)",
 		Gen: func(i int) *world.Case {
 			if i < len(sweep) {
 				return sweep[i]
